@@ -22,7 +22,7 @@ EVAL_FUNCS = 'eval_expr, eval_or_expr, eval_and_expr, eval_eq_expr, eval_relatio
 
 PROPS = {
     'C05': dict(
-        standin_ops=['xpath.query.node_test', 'xpath.query.axes', 'xpath.query.predicates'],
+        standin_ops=['xpath.query.node_test', 'xpath.query.axes', 'xpath.query.predicates', 'xpath.query.strings'],
         verus_units=['eval_ctx', 'func_lib', 'c05_axes'],
         level='proof',
         trusted_base=TRUSTED_VERUS,
